@@ -2,8 +2,8 @@ PROPERTIES = ['C07', 'C02']
 BOUNDS = {
     'quick': 'expected<int,char> and expected<NT,NT2> (non-trivial copy/move/dtor paths): one operation from every pre-state (has_value flag, 32-bit payload and object bytes '
              'before construction symbolic), every (from,to) state pair for copy/move assignment and swap, all four value categories of *this for and_then/or_else; '
-             'histories of 2 symbolic operations over all 12 operation kinds and of 3 over two halves of the operation set (two objects, from default-constructed)',
-    'thorough': 'same plus expected<int,int> (both alternatives of the same type) and expected<NT,int>; histories of 3 (all kinds) and 5 (two halves) operations',
+             'histories of 3 symbolic operations over 12 operation kinds (two objects, from default-constructed)',
+    'thorough': 'same plus expected<int,int> (both alternatives of the same type) and expected<NT,int>; histories of 5 operations',
 }
 ASSUMPTIONS = [
     'C07: std::expected is invisible to clang-16 with libstdc++-12: the oracle is the tagged-union model exp_model.h (validated natively against g++ -std=c++23 std::expected by '
@@ -27,7 +27,7 @@ def queries(tier, prop='C07'):
     for es in (1, 2) if quick else (1, 2, 3, 4):
         for e in STEP:
             add(e, es)
-        for h in (('hist2', 'hist3_core', 'hist3_rest') if quick else ('hist2', 'hist3', 'hist5_core', 'hist5_rest')):
+        for h in (('hist3',) if quick else ('hist3', 'hist5')):
             add(h, es, budget=300 if quick else 2400)
     if ub and quick:   # C02 quick: the non-trivial instantiation only; C02 thorough runs the whole grid with the UB build
         out = [q for q in out if q['cfg']['ESEL'] == 2]
